@@ -16,7 +16,10 @@ small (the loops iterate several times inside the bound):
   allocates the declared size and fails unless it is the truth;
   ``stream_reader(f).read(k)`` returns ``min(k, remaining, q)`` bytes (q >= 1 symbolic: short
   reads allowed), ``b""`` only at the end; on a frame whose header declares a size its blocks
-  do not have, the read that reaches the end of the frame raises instead.
+  do not have, the read that reaches the end of the frame raises instead;
+  a frame asks for a window (streamed frames: per level, from the live library's table;
+  symbolic), a ``ZstdDecompressor`` provides what its constructor arguments say
+  (``max_window_size``, 0 = library default 2**27): a frame asking for more fails in both APIs.
 
 Decided for every n, cap, pend, q, declared size inside the bound:
   returns the plaintext  <=>  cap is None or n <= cap;   otherwise DecompressionLimitExceeded;
@@ -70,6 +73,41 @@ ASSUMPTIONS = [
 
 _UNKNOWN = cod._ZSTD_CONTENTSIZE_UNKNOWN
 
+# zstd window requirements, read from the live library: what a streaming compressor (input size unknown) asks for at
+# each level, and the smallest window any frame can ask for (what a tiny size-declaring frame gets).
+_LEVELS = list(range(-8, _real_zstd.MAX_COMPRESSION_LEVEL + 1))
+_LEVEL_WLOG = {lv: _real_zstd.ZstdCompressionParameters.from_level(lv).window_log for lv in _LEVELS}
+_WIN_LO = 1 << min(_LEVEL_WLOG.values())
+_WIN_HI = 1 << max(_LEVEL_WLOG.values())
+_WIN_TINY = 1 << _real_zstd.WINDOWLOG_MIN
+_DEFAULT_WINDOW_LOG = 27  # zstd.h ZSTD_WINDOWLOG_LIMIT_DEFAULT: what a decompressor built without max_window_size accepts
+
+
+def raw_zstd_frame(plain: bytes, wlog: int) -> bytes:
+    """A size-less RFC 8878 frame asking for a window of 2**wlog bytes and carrying ``plain`` in raw blocks (built by
+    hand: producing one with the real compressor at an ultra level costs ~1 GiB and half a minute)."""
+    out = bytearray(b"\x28\xb5\x2f\xfd" + bytes([0x00, (wlog - 10) << 3]))
+    step = 1 << 15
+    pieces = [plain[i : i + step] for i in range(0, len(plain), step)] or [b""]
+    for i, piece in enumerate(pieces):
+        out += ((1 if i == len(pieces) - 1 else 0) | (len(piece) << 3)).to_bytes(3, "little") + piece
+    return bytes(out)
+
+
+def _check_default_window_limit() -> None:
+    """The stub's 'default accepted window' is checked against the real library at import (cheap: hand-built frames)."""
+    ok = _real_zstd.ZstdDecompressor().stream_reader(raw_zstd_frame(b"w", _DEFAULT_WINDOW_LOG)).read() == b"w"
+    try:
+        _real_zstd.ZstdDecompressor().stream_reader(raw_zstd_frame(b"w", _DEFAULT_WINDOW_LOG + 1)).read()
+        ok = False
+    except _real_zstd.ZstdError:
+        pass
+    if not ok or _WIN_HI > 1 << _DEFAULT_WINDOW_LOG:
+        raise RuntimeError("zstandard's default window limit is not 2**27 / a level asks for more: revisit the C18 window contract")
+
+
+_check_default_window_limit()
+
 
 # ---------------------------------------------------------------------------
 # contract stubs
@@ -93,9 +131,9 @@ _REC = _Rec()
 class _Frame:
     """Opaque compressed form of a hidden plaintext."""
 
-    __slots__ = ("codec", "container", "declared", "level", "plain", "truncated", "wire")
+    __slots__ = ("codec", "container", "declared", "level", "plain", "truncated", "window", "wire")
 
-    def __init__(self, codec: str, plain: bytes, declared: int = -1, level: int = 0, container: int = 31, truncated: bool = False, wire: int = 1) -> None:
+    def __init__(self, codec: str, plain: bytes, declared: int = -1, level: int = 0, container: int = 31, truncated: bool = False, wire: int = 1, window: int = 0) -> None:
         self.codec = codec
         self.plain = plain  # what the frame can deliver
         self.declared = declared
@@ -105,6 +143,9 @@ class _Frame:
         # zlib never reports eof, zstd's one-shot API fails, zstd's reader just ends.  Used by C17 only.
         self.truncated = truncated
         self.wire = wire  # size of the compressed form in bytes (only its length is observable: len(frame))
+        # zstd: the back-reference window the frame header asks the decoder to provide, in bytes.  A compressor that
+        # does not know the input size up front (streaming) takes it from the LEVEL alone, whatever the payload.
+        self.window = window
 
     def __bool__(self) -> bool:
         return True
@@ -232,10 +273,11 @@ class _FrameParams:
 
 
 class _ZReader:
-    def __init__(self, frame: _Frame, quantum: int) -> None:
+    def __init__(self, frame: _Frame, quantum: int, accepted: int = 1 << _DEFAULT_WINDOW_LOG) -> None:
         self._frame = frame
         self._pos = 0
         self._q = quantum
+        self._accepted = accepted
 
     def __enter__(self) -> "_ZReader":
         return self
@@ -247,6 +289,8 @@ class _ZReader:
         raise HarnessModelError(f"stream_reader stub has no {name}")
 
     def read(self, size: int = -1) -> bytes:
+        if self._frame.window > self._accepted:
+            raise _real_zstd.ZstdError("zstd decompress error: Frame requires too much memory for decoding")
         rem = len(self._frame.plain) - self._pos
         if size is None or size < 0:
             if _REC.cap is not None:
@@ -268,20 +312,26 @@ class _ZReader:
 
 
 class _ZDecompressor:
-    def __init__(self, quantum: int) -> None:
+    def __init__(self, quantum: int, accepted: int = 1 << _DEFAULT_WINDOW_LOG) -> None:
         self._q = quantum
+        self._accepted = accepted  # largest frame window this decompressor was built to provide
 
     def __getattr__(self, name: str) -> object:
         raise HarnessModelError(f"ZstdDecompressor stub has no {name}")
 
-    def stream_reader(self, source: object) -> _ZReader:
+    def stream_reader(self, source: object, read_size: int = 0, read_across_frames: bool = False, closefd: bool = True, **kw: object) -> _ZReader:
+        if kw:
+            raise HarnessModelError("stream_reader option the stub does not model")
+        # (the body is ONE frame here: reading across frames makes no difference; read_size is an input-side buffer size)
         if not isinstance(source, _Frame) or source.codec != "zstd":
             raise _real_zstd.ZstdError("zstd decompress error: Unknown frame descriptor")
-        return _ZReader(source, self._q)
+        return _ZReader(source, self._q, self._accepted)
 
     def decompress(self, data: object, max_output_size: int = 0) -> bytes:
         if not isinstance(data, _Frame) or data.codec != "zstd":
             raise _real_zstd.ZstdError("decompression error: Unknown frame descriptor")
+        if data.window > self._accepted:
+            raise _real_zstd.ZstdError("decompression error: Frame requires too much memory for decoding")
         d = data.declared
         if d == -1 or d == _UNKNOWN:
             if max_output_size == 0:
@@ -307,7 +357,7 @@ class _ZCompressor:
         raise HarnessModelError(f"ZstdCompressor stub has no {name}")
 
     def compress(self, data: bytes) -> _Frame:
-        return _Frame("zstd", data, declared=len(data), level=self._level)
+        return _Frame("zstd", data, declared=len(data), level=self._level, window=_WIN_TINY)  # input size known: the window follows it
 
 
 def _zs_get_frame_parameters(data: object) -> _FrameParams:
@@ -316,8 +366,13 @@ def _zs_get_frame_parameters(data: object) -> _FrameParams:
     return _FrameParams(data.declared)
 
 
-def _zs_decompressor() -> _ZDecompressor:
-    return _ZDecompressor(_ZSTD.quantum)
+def _zs_decompressor(dict_data: object = None, max_window_size: int = 0, format: object = None, **kw: object) -> _ZDecompressor:  # noqa: A002
+    if dict_data is not None or kw or (format is not None and format != _real_zstd.FORMAT_ZSTD1):
+        raise HarnessModelError("ZstdDecompressor built with a dictionary / format / option the stub does not model")
+    if not 0 <= max_window_size <= 1 << _real_zstd.WINDOWLOG_MAX:
+        raise HarnessModelError("ZstdDecompressor max_window_size outside what the library takes")
+    # 0 = the library default; otherwise exactly what the caller allows
+    return _ZDecompressor(_ZSTD.quantum, max_window_size if max_window_size > 0 else 1 << _DEFAULT_WINDOW_LOG)
 
 
 def _zs_compressor(level: int = 3) -> _ZCompressor:
@@ -377,6 +432,7 @@ _STUB_TEXT = [
     "zstandard := contract stub (get_frame_parameters.content_size symbolic; one-shot decompress returns b'' undecoded when the header declares 0, else allocates the declared size and fails unless declared == n; stream_reader.read(k) returns min(k, remaining, q) bytes, b'' only at the end, and raises at the end of a frame whose declared size is not n; ZstdCompressor.compress declares the size)",
     "_DECOMPRESS_CHUNK_BYTES := %d" % _CHUNK,
 ]
+_STUB_TEXT[1] += "; a frame carries the window it needs (streamed frames: any size a level's streaming compressor asks for), ZstdDecompressor(max_window_size=w) decodes only frames needing <= w (0 = default 2**27, checked against the real library at import), other constructor arguments are outside the model"
 
 
 def reset_rec(cap: int | None, pend: int = 0, quantum: int = 1 << 30) -> _Rec:
@@ -500,8 +556,8 @@ class _MeterReader:
 
 
 class _MeterZD:
-    def __init__(self, m: _Meter) -> None:
-        self._real, self._m = _real_zstd.ZstdDecompressor(), m
+    def __init__(self, m: _Meter, *a: object, **k: object) -> None:
+        self._real, self._m = _real_zstd.ZstdDecompressor(*a, **k), m  # built the way the code under test asked for
 
     def __getattr__(self, name: str) -> object:
         return getattr(self._real, name)
@@ -520,7 +576,7 @@ class _MeterZD:
 def _meter_zstd_module(m: _Meter) -> types.ModuleType:
     mod = types.ModuleType("zstandard")
     mod.__dict__.update({k: v for k, v in _real_zstd.__dict__.items() if not k.startswith("__")})
-    mod.ZstdDecompressor = lambda *a, **k: _MeterZD(m)  # type: ignore[attr-defined]
+    mod.ZstdDecompressor = lambda *a, **k: _MeterZD(m, *a, **k)  # type: ignore[attr-defined]
     return mod
 
 
@@ -686,11 +742,15 @@ def zstd_cap_exact(plain: bytes, has_cap: bool, cap: int, size_mode: int, quantu
     pre: len(plain) <= _N and 0 <= cap <= _N + 2 and 0 <= size_mode <= 2 and 1 <= quantum <= _CHUNK + 1
     post: _
     """
-    c = cap if has_cap else None
+    declared = len(plain) if size_mode == 0 else (-1 if size_mode == 1 else _UNKNOWN)
+    # (a size-declaring frame of this size asks for the smallest window; a streamed one for at least the smallest level window)
+    return _zstd_decides(plain, cap if has_cap else None, declared, quantum, _WIN_TINY if size_mode == 0 else _WIN_LO)
+
+
+def _zstd_decides(plain: bytes, c: int | None, declared: int, quantum: int, window: int) -> bool:
     rec = reset_rec(c, quantum=quantum)
     n = len(plain)
-    declared = n if size_mode == 0 else (-1 if size_mode == 1 else _UNKNOWN)
-    frame = _Frame("zstd", plain, declared=declared)
+    frame = _Frame("zstd", plain, declared=declared, window=window)
     with stub_zstandard():
         try:
             out = decompress_stubbed(cod.Encoding.ZSTD, frame, max_output_size=c)
@@ -707,6 +767,56 @@ def zstd_cap_exact(plain: bytes, has_cap: bool, cap: int, size_mode: int, quantu
     if c is not None and over_materialised(rec, c):
         return False
     return out == plain
+
+
+def _level_for_window(win: int) -> int:
+    """The lowest level at which a streaming compressor asks for at least ``win`` bytes of window (live table)."""
+    return min((lv for lv in _LEVELS if 1 << _LEVEL_WLOG[lv] >= win), default=_LEVELS[-1])
+
+
+def _replay_window(args: dict) -> str | None:
+    cap = args["cap"] if args["has_cap"] else None
+    level = _level_for_window(args["win"])
+    wlog = _LEVEL_WLOG[level]
+    for lifted in (False, True):
+        n = _lift(len(args["plain"])) if lifted else len(args["plain"])
+        c = None if cap is None else (_lift(cap) if lifted else cap)
+        p = _stretch(args["plain"], n)
+        data = raw_zstd_frame(p, wlog)
+        fp = _real_zstd.get_frame_parameters(data)
+        if fp.window_size != 1 << wlog or fp.content_size not in (-1, _UNKNOWN):
+            return None  # the hand-built frame is not what it is meant to be
+        got, out, msg, m = _real_outcome(cod.Encoding.ZSTD, data, c)
+        want = _expect(n, c)
+        if got != want or (got == "ok" and out != p):
+            what = f"returned {len(out or b'')} bytes" if got == "ok" else f"raised {got} {msg[:90]}"
+            return (
+                f"decompress(ZSTD, <size-less zstd frame of {n} bytes asking for a {1 << wlog}-byte window, as a streaming compressor writes it at "
+                f"level {level}>, max_output_size={c}) {what}; expected {'the plaintext' if want == 'ok' else 'DecompressionLimitExceeded'}"
+            )
+        if m.over():
+            return f"decompress(ZSTD, <size-less frame, window {1 << wlog}>, max_output_size={c}) materialised {m.produced} decoded bytes{m.unlimited}"
+    return None
+
+
+_NW = pick(6, 12)
+BOUNDS += (
+    f"; size-less frames written by a streaming compressor at any level {_LEVELS[0]}..{_LEVELS[-1]}: required window = any size from "
+    f"{_WIN_LO} to {_WIN_HI} bytes (live library table), n<={_NW}"
+)
+
+
+@cond(q=60, t=200, stubs=_STUB_TEXT[1:], encoded=[cod.decompress, cod._decompress_body_zstd, cod._zstd_content_size],
+      bound=f"size-less frame, n<={_NW}, cap None|0..{_NW + 2}, required window = any size from {_WIN_LO} to {_WIN_HI} bytes (streaming compressors at every level {_LEVELS[0]}..{_LEVELS[-1]}), q in 1..{_CHUNK + 1}",
+      replay=_replay_window, signature=lambda a, c: "C18:zstd:streaming-frame-window")
+def zstd_streaming_frame_of_any_level(plain: bytes, has_cap: bool, cap: int, win: int, minus_one: bool, quantum: int) -> bool:
+    """
+    pre: len(plain) <= _NW and 0 <= cap <= _NW + 2 and _WIN_LO <= win <= _WIN_HI and 1 <= quantum <= _CHUNK + 1
+    post: _
+    """
+    # the frame's window requirement is a property of the LEVEL it was written at, not of its payload: every level's
+    # streaming frame must round-trip / hit the limit error exactly like any other
+    return _zstd_decides(plain, cap if has_cap else None, -1 if minus_one else _UNKNOWN, quantum, win)
 
 
 def _sig_lie(args: dict, conc: object) -> str:
